@@ -211,6 +211,34 @@ func c16Failover(w *World, r *Report, openM *types.Func) {
 			connectCall, _ = c.(*ssa.Call)
 		}
 	}
+	// the trial loop may live in a helper of open (`a, found := ul.firstReachable(manager)`)
+	openFn := fn
+	if connectCall == nil {
+		for _, c := range callsIn(openFn) {
+			sc := c.Common().StaticCallee()
+			if sc == nil || !inModule(sc) || sc.Pkg != openFn.Pkg || len(sc.Blocks) == 0 {
+				continue
+			}
+			for _, c2 := range callsIn(sc) {
+				if cc := c2.Common(); cc.IsInvoke() && cc.Method.Name() == "Connect" && connectCall == nil {
+					connectCall, _ = c2.(*ssa.Call)
+					fn = sc
+				}
+			}
+		}
+		if connectCall != nil {
+			if fd2 := w.Decl(fnObj(fn)); fd2 != nil {
+				inspectCalls(w.InfoOf(fd2), fd2.Body, func(call *ast.CallExpr, callee *types.Func) {
+					if callee != nil && callee.Pkg() != nil {
+						switch callee.Pkg().Path() {
+						case "sort", "math/rand", "slices":
+							bad = fmt.Sprintf("%s: %s.%s reorders or randomises the upstream list", w.Pos(call.Pos()), callee.Pkg().Name(), callee.Name())
+						}
+					}
+				})
+			}
+		}
+	}
 	if connectCall == nil {
 		bad = "open never calls Upstream.Connect"
 	}
@@ -281,6 +309,19 @@ func c16Failover(w *World, r *Report, openM *types.Func) {
 		return
 	}
 	key8 := "method:(*client/upstream.Upstreams).open|success-is-reported"
+	if fn != openFn {
+		res := fn.Signature.Results()
+		hasErr := false
+		for i := 0; i < res.Len(); i++ {
+			if isErrorType(res.At(i).Type()) {
+				hasErr = true
+			}
+		}
+		if !hasErr {
+			r.Hold("R16.8", key8, w.Pos(openM.Pos()), "the trial loop lives in "+ssaFuncKey(fn)+", which returns no error: nothing of an earlier upstream's failure can reach open's result")
+			return
+		}
+	}
 	bad8 := ""
 	nsucc := 0
 	okp := enumPaths(fn, nil, func(in ssa.Instruction) bool { _, isCall := in.(*ssa.Call); return isCall }, nil, func(e pathExit) {
@@ -345,7 +386,7 @@ func ruleSharedSession(w *World, r *Report, rule string, uc, openM *types.Func) 
 			mutexF = st.Field(i)
 		}
 	}
-	connF, sessF := fieldOf(ups, "connection"), fieldOf(ups, "session")
+	_, connF, sessF := upstreamsSharedFields(w)
 	if mutexF == nil || connF == nil || sessF == nil {
 		r.Undecided(rule, "type:client/upstream.Upstreams", w.Pos(ups.Obj().Pos()), "mutex / connection / session fields unresolved")
 		return
